@@ -392,4 +392,25 @@ def corpus_descs():
                  cc.param("txt", dict(k="value", dop=cc.simple(cc.minmax(cc.BASCII, 0, 4, 0)), dflt="ab")),
                  cc.param("blob", dict(k="value", dop=cc.simple(cc.minmax(cc.BBYTES, 0, 4, 2)), dflt=b"\x01\x02"))], False,
                 [{}, {"n": 0}, {"n": 0, "txt": "", "blob": b""}, {"n": 7, "txt": "x"}, {"blob": b""}, {"txt": ""}]))
+    # an END-OF-PDU-FIELD with MAX-NUMBER-OF-ITEMS given more items than that (accepted, so they all come back)
+    out.append(([cc.param("sid", dict(k="coded", dct=cc.std(cc.BUINT, 8), v=0x22)),
+                 cc.param("f", dict(k="value", dop=dict(k="eop", s=cc.struct([cc.param("x", dict(k="value", dop=u8(), dflt=None))]), maxn=2),
+                                    dflt=None))], False,
+                [{"f": [{"x": k} for k in range(n)]} for n in (0, 1, 2, 3, 5)]))
+    # a structure with BYTE-SIZE whose parameters are listed out of wire order (the last one listed is not the last one
+    # on the wire) and fill the declared size: nothing is padded, nothing overwritten
+    oo = cc.struct([cc.param("b", dict(k="value", dop=u8(), dflt=None), 2),
+                    cc.param("a", dict(k="value", dop=cc.simple(cc.std(cc.BUINT, 16)), dflt=None), 0)], byte_size=3)
+    out.append(([cc.param("sid", dict(k="coded", dct=cc.std(cc.BUINT, 8), v=0x2E)),
+                 cc.param("s", dict(k="value", dop=oo, dflt=None)),
+                 cc.param("t", dict(k="value", dop=u8(), dflt=None))], False,
+                [{"s": {"a": 0x1234, "b": 0x07}, "t": 0xA5}, {"s": {"a": 0xFFFF, "b": 0xFF}, "t": 0}]))
+    # a LENGTH-KEY of the request whose value is determined one nesting level deeper (the object using it sits in a
+    # structure) and which the caller leaves out
+    deep = cc.struct([cc.param("blob", dict(k="value", dop=cc.simple(cc.paramlen(cc.BBYTES, "len")), dflt=None))])
+    out.append(([cc.param("sid", dict(k="coded", dct=cc.std(cc.BUINT, 8), v=0x23)),
+                 cc.param("len", dict(k="lenkey", dop=cc.simple(cc.std(cc.BUINT, 8)))),
+                 cc.param("s", dict(k="value", dop=deep, dflt=None)),
+                 cc.param("tail", dict(k="value", dop=u8(), dflt=None))], False,
+                [{"s": {"blob": b"xy"}, "tail": 1}, {"s": {"blob": b""}, "tail": 1}, {"len": 16, "s": {"blob": b"xy"}, "tail": 1}]))
     return out
